@@ -1,7 +1,9 @@
 package main
 
 import (
+	"fmt"
 	"go/token"
+	"go/types"
 	"strings"
 
 	"golang.org/x/tools/go/ssa"
@@ -154,4 +156,112 @@ func bindByNorm(n *Normer, fn *ssa.Function, atom, role string) {
 	for _, v := range hits {
 		n.Bind[v] = role
 	}
+}
+
+// flattenArgs: the arguments of a call with every struct-literal argument (a value loaded from a
+// local composite literal) replaced by the values of its fields, in field order. Rules that pick
+// arguments by role/type keep working when a few parameters are grouped into a small struct.
+func flattenArgs(args []ssa.Value) []ssa.Value {
+	var out []ssa.Value
+	for _, a := range args {
+		st, isStruct := a.Type().Underlying().(*types.Struct)
+		ld, isLoad := a.(*ssa.UnOp)
+		if !isStruct || !isLoad || ld.Op != token.MUL {
+			out = append(out, a)
+			continue
+		}
+		al, ok := ld.X.(*ssa.Alloc)
+		if !ok {
+			out = append(out, a)
+			continue
+		}
+		stores, paths, _ := storesTo(al)
+		flat := make([]ssa.Value, st.NumFields())
+		good := true
+		for i, s := range stores {
+			if len(paths[i]) != 1 || flat[paths[i][0]] != nil {
+				good = false
+				break
+			}
+			flat[paths[i][0]] = s.Val
+		}
+		for _, f := range flat {
+			if f == nil {
+				good = false
+			}
+		}
+		if !good {
+			out = append(out, a)
+			continue
+		}
+		out = append(out, flat...)
+	}
+	return out
+}
+
+// argOfKind: the first (flattened) argument whose type satisfies pred.
+func argOfKind(args []ssa.Value, pred func(types.Type) bool) ssa.Value {
+	for _, a := range flattenArgs(args) {
+		if pred(a.Type()) {
+			return a
+		}
+	}
+	return nil
+}
+
+// bindByType gives role names to the values a function receives, by type and order of appearance,
+// whether they arrive as separate parameters or as fields of a small struct parameter: each role
+// takes the first unused scalar parameter or struct field whose type satisfies its predicate.
+type roleSpec struct {
+	name string
+	pred func(types.Type) bool
+}
+
+func bindByType(n *Normer, fn *ssa.Function, roles ...roleSpec) bool {
+	if n.Root == nil {
+		n.Root = fn
+	}
+	type slot struct {
+		param *ssa.Parameter
+		field int // -1: the parameter itself
+		t     types.Type
+		used  bool
+	}
+	var slots []*slot
+	for _, p := range fn.Params {
+		if st, ok := p.Type().Underlying().(*types.Struct); ok {
+			for i := 0; i < st.NumFields(); i++ {
+				slots = append(slots, &slot{p, i, st.Field(i).Type(), false})
+			}
+			continue
+		}
+		slots = append(slots, &slot{p, -1, p.Type(), false})
+	}
+	all := true
+	for _, r := range roles {
+		found := false
+		for _, s := range slots {
+			if s.used || !r.pred(s.t) {
+				continue
+			}
+			s.used, found = true, true
+			if s.field < 0 {
+				n.Bind[s.param] = r.name
+			} else {
+				idx := 0
+				for i, q := range fn.Params {
+					if q == s.param {
+						idx = i
+					}
+				}
+				st := s.param.Type().Underlying().(*types.Struct)
+				n.AtomAlias[fmt.Sprintf("p%d.%s", idx, fname(st.Field(s.field)))] = r.name
+			}
+			break
+		}
+		if !found {
+			all = false
+		}
+	}
+	return all
 }
